@@ -20,6 +20,7 @@ mod c13;
 mod c14;
 mod c15;
 mod c16;
+mod c17;
 mod c18;
 pub mod expand;
 
@@ -128,6 +129,7 @@ pub fn drive(prop: &str, tier: &str, seed: u64, outdir: &str) -> u64 {
         "C14" => c14::drive(&mut tr, &mut rng, thorough),
         "C15" => c15::drive(&mut tr, &mut rng, thorough),
         "C16" => c16::drive(&mut tr, &mut rng, thorough),
+        "C17" => c17::drive(&mut tr, &mut rng, thorough),
         "C18" => c18::drive(&mut tr, &mut rng, thorough),
         _ => panic!("no driver for {}", prop),
     }
